@@ -247,7 +247,10 @@ def run(ctx):
     # an image row's default: a file name gets the jr://images/ prefix, an expression is left as the expression it is
     pid_ = ctx.func("pyxform.xls2json:process_image_default", "C10.R1")
     for dflt, dyn_, want_ in (("pic.jpg", False, "jr://images/pic.jpg"), ("jr://images/pic.jpg", False, "jr://images/pic.jpg"), ("my pic-2.png", False, "jr://images/my pic-2.png"),
-                              ("${p}", True, "${p}"), ("concat('jr://images/', ${p})", True, "concat('jr://images/', ${p})"), ("if(${a} = 1, 'a.png', 'b.png')", True, "if(${a} = 1, 'a.png', 'b.png')")):
+                              ("${p}", True, "${p}"), ("concat('jr://images/', ${p})", True, "concat('jr://images/', ${p})"), ("if(${a} = 1, 'a.png', 'b.png')", True, "if(${a} = 1, 'a.png', 'b.png')"),
+                              # whatever the shared classifier calls dynamic is left alone - also when it ends like a file name: the instance
+                              # and setvalue builders ask the same classifier and would emit the prefixed text as an expression
+                              ("photo(1).jpg", True, "photo(1).jpg"), ("${a}.jpg", True, "${a}.jpg"), ("IMG - 0001.PNG", True, "IMG - 0001.PNG"), ("concat(${a}, '.png')", True, "concat(${a}, '.png')")):
         itp_ = ctx.interp("C10.R1", hooks={"fnname:default_is_dynamic": lambda i, a, k, n, dyn_=dyn_: dyn_})
         itp_.reset([])
         try:
